@@ -106,6 +106,11 @@ pub fn run<T: Elt>(kind: &str, a: &mut Args, out: &mut Out) {
             let x = m.solve_basic(&b); if !same_v(&b, &bs) { panic!("harness: operand mutated by solve_basic"); } out.v(&x); }
         "mat.solve_lu" => { let mut m = a.m::<T>(); let b = a.v::<T>(); let bs = b.clone();
             let x = m.solve_lu(&b); if !same_v(&b, &bs) { panic!("harness: operand mutated by solve_lu"); } out.v(&x); }
+        "mat.solve_both" => { let m = a.m::<T>(); let b = a.v::<T>(); let bs = b.clone();
+            let mut m1 = m.clone(); let x = m1.solve_basic(&b);
+            let mut m2 = m.clone(); let y = m2.solve_lu(&b);
+            if !same_v(&b, &bs) { panic!("harness: operand mutated by solve"); }
+            out.v(&x); out.v(&y); }
         "mat.lu" => { let mut m = a.m::<T>(); let (p, perm) = m.lu_decomp_in_place(); out.usize(p); out.m(&perm); out.m(&m); }
         "mat.det" => { let m = a.m::<T>(); let snap = m.clone(); let d = m.determinant(); check_same(&m, &snap, "determinant"); out.s(&d); }
         "mat.inverse" => { let m = a.m::<T>(); let snap = m.clone(); let inv = m.inverse(); check_same(&m, &snap, "inverse"); out.m(&inv); }
